@@ -320,7 +320,8 @@ let run_x86mov = function
     (match p.bp_code, p.bp_live with
      | [i], [live] ->
        let ms = List.map parse_mins (List.filter (fun x -> String.trim x <> "") (split_on ';' code)) in
-       if mov_ok (zs w) i p.bp_min p.bp_max live ms then "ok" else "bad mismatch"
+       if mov_ok (zs w) i p.bp_min p.bp_max live ms then "ok"
+       else if mov_unsafe_ok (zs w) i ms then "ok-unchecked" else "bad mismatch"
      | _ -> "ERR need exactly one instruction")
   | _ -> "ERR bad x86mov line"
 
